@@ -1334,7 +1334,21 @@ class Ev:
         if isinstance(st, ast.If):
             return self.block(st.body if self.truth(self.ev(st.test, env, mod), st) else st.orelse, env, mod)
         if isinstance(st, ast.For):
-            it = self.iterate(self.ev(st.iter, env, mod), st)
+            src = self.ev(st.iter, env, mod)
+            if type(src) is ListV and not isinstance(src, RepeatV):
+                # a list is iterated by position over the list as it is *then*: removing from it inside the loop
+                # makes the loop skip the element that moves into the freed place (as in Python)
+                def live(lst=src):
+                    i = 0
+                    while i < len(lst.items):
+                        yield lst.items[i]
+                        i += 1
+                        if i > 4096:
+                            raise AnalysisError("loop over a list that keeps growing")
+
+                it = live()
+            else:
+                it = self.iterate(src, st)
             for x in it:
                 self.assign(st.target, x, env, mod)
                 r = self.block(st.body, env, mod)
